@@ -248,7 +248,7 @@ func (m *fStompSubscriberTransport) Subscribe(topic string, callback FAsyncCallb
 	m.isSubscribed = true
 	m.callback = callback
 	m.topic = destination
-	go m.processMessages()
+	go m.processMessages(callback)
 	return nil
 }
 
@@ -281,7 +281,7 @@ func (m *fStompSubscriberTransport) Unsubscribe() error {
 
 // processMessages call the given FAsyncCallback with messages from the
 // subscription channel.
-func (m *fStompSubscriberTransport) processMessages() {
+func (m *fStompSubscriberTransport) processMessages(callback FAsyncCallback) {
 	stopC := m.stopC
 	for {
 		select {
@@ -301,7 +301,7 @@ func (m *fStompSubscriberTransport) processMessages() {
 			}
 
 			transport := &thrift.TMemoryBuffer{Buffer: bytes.NewBuffer(message.Body[4:])}
-			if err := m.callback(transport); err != nil {
+			if err := callback(transport); err != nil {
 				logger().Warn("frugal: error executing callback: ", err)
 				continue
 			}
